@@ -632,7 +632,10 @@ def skeleton(op, enc: Encoder):
     if isinstance(op, core.IdentityOperator):
         return [name, i, [], []]
     if isinstance(op, core.HomothetyOperator):
-        return [name, i, [frac_json(to_frac(float(op.value)))], []]
+        v = np.asarray(op.value)
+        if v.shape != ():  # a non-scalar factor that the implementation accepted: reported, never a harness crash
+            return [name, i, [f'non-scalar{list(v.shape)}'], []]
+        return [name, i, [frac_json(to_frac(float(v)))], []]
     if isinstance(op, core.CompositionOperator):
         return [name, i, [], [skeleton(o, enc) for o in op.operands]]
     if isinstance(op, core.AdditionOperator):
